@@ -1,5 +1,6 @@
 import AgdbStorage.Model.StorageSpec
 import AgdbStorage.Lemmas.AllocReach
+import AgdbStorage.Lemmas.AllocWfAll
 /-
 C04 — Stored data survives any pattern of space reuse and defragmentation.
 
@@ -144,6 +145,21 @@ theorem C04_reopen : C04_reopen_statement := by
   rw [h.abs, hok]
   rfl
 
+/-- Link to C01: every `StorageData::write` call a storage operation issues lies inside the file
+or starts exactly at its end, and every offset fits `u64` (`wfOps`, `FsOp.wf` of `Model/Wal.lean`),
+so the C01 theorem applies to every history of storage operations.  Explicit `u64` hypothesis: the
+file may grow by at most `2 * op.size + 32` bytes, where `op.size` (`SOp.size`, `Lemmas/AllocWf.lean`)
+is the length of the value written (`insert`, `replace`: `|b|`; `insertAt`: `off + |b|`; `moveAt`:
+`to + n`; `resize`: `n`; otherwise 0).  (That `flush` is issued exactly when the outermost
+transaction completes is `C01b_flush_outermost`, `Props/C01b.lean`.) -/
+def C04_calls_wellformed_statement : Prop :=
+  ∀ (s : Storage) (op : SOp), ReachableF s → op ≠ .reopen →
+    s.len + 2 * op.size + 32 < 2 ^ 64 →
+    wfOps s.data ((s.step op).1.trace.drop s.trace.length)
+
+theorem C04_calls_wellformed : C04_calls_wellformed_statement :=
+  fun _ op hr hop hb => hr.step_wf op hop hb
+
 /-- The representation invariant holds after any history (exported for other properties). -/
 theorem C04_invariant : ∀ s, ReachableF s → SInv s := fun _ h => h.inv
 
@@ -177,5 +193,9 @@ example : (exState.step (.insert [9])).2 = .ok (some 1) ∧
     (exState.step (.insert [9])).1.abs 1 = some [9] := ⟨rfl, by decide⟩
 
 example : exState.abs 2 ≠ none := by decide
+
+/-- `calls_wellformed`: the bound is satisfiable and the operation issues calls (2 writes + flush) -/
+example : exState.len + 2 * (SOp.insert [9]).size + 32 < 2 ^ 64 ∧
+    ((exState.step (.insert [9])).1.trace.drop exState.trace.length).length = 3 := by decide
 
 end AgdbStorage
